@@ -60,6 +60,8 @@ package discovery
 //@   site call AddNode: assert ret(ValidateNodeAnn) == nil
 //@   site call ValidateNodeAnn: assert arg(0) == msg
 //@   site call NodeFromWireAnnouncement: assert arg(0) == msg
+//@   // success means validated and stored: the caller relays the announcement on the strength of this nil
+//@   ensures result == nil ==> called(ValidateNodeAnn) && ret(ValidateNodeAnn) == nil && called(AddNode) && ret(AddNode) == nil
 //@
 //@ // ---- a zombie channel is resurrected only by an update signed by the node whose direction the update is for
 //@ func (d *AuthenticatedGossiper) processZombieUpdate
